@@ -313,6 +313,9 @@ int main(int argc, char** argv) {
         // a request whose arithmetic overflows (finite input at the top of the range) followed by ordinary ones: sticky floating-point
         // status, error latches
         {"J", {{HUGE_C, 16}, {HUGE_I, 12}, {IFFT, 12}, {FFT_C, 53}, {IFFT, 60}, {IRFFT, 24}}},
+        // nested composite lengths: one request's length is a composite, non-power-of-two factor of another's with an odd cofactor
+        // (a plan found in the cache and reused as a sub-transform differs in its twiddle tables from the sub-plan built in place)
+        {"K", {{FFT_C, 35}, {FFT_C, 105}, {FFT_C, 55}, {FFT_C, 165}, {FFT_C, 15}, {FFT_R, 210}}},
         {"F", {{HOLD_IR, 12}, {HOLD_IR, 20}, {IRFFT, 14}, {IRFFT, 12}, {HOLD_Z, 5}, {HOLD_Z, 9}, {USEBAD, 0}, {USE, 0}, {USE, 1}, {USEBAD, 1}}},
         {"D", {{FFT_C, 12}, {FFT_C, 60}, {FFT_C, 53}, {FFT_R, 30}, {HOLD_C, 60}, {HOLD_R, 30}, {HOLD_I, 12}, {HOLD_C, 53}, {USE, 0}, {USEBAD, 0}}},
     };
@@ -324,6 +327,7 @@ int main(int argc, char** argv) {
         if (std::string(al.name) == "H") d = asan ? 2 : (T ? 4 : 3);
         if (std::string(al.name) == "I") d = asan ? 1 : (T ? 3 : 2);
         if (std::string(al.name) == "J") d = asan ? 3 : (T ? 6 : 4);
+        if (std::string(al.name) == "K") d = asan ? 3 : (T ? 7 : 5);
         std::string chk = std::string("seq.") + al.name;
         if (!ctx.wants(chk.c_str())) continue;
         // references: each letter in a brand-new thread (twice: must be deterministic)
